@@ -138,3 +138,70 @@ def field_mut_calls(F, adt, field, grep_hint=None):
             if site["kind"] == "call" and site["direct"]:
                 out.append((b, site["bb"], site["callee"]))
     return out
+
+
+def flags_set_after_call(F, parent, callee_suffix):
+    """Locals of `parent` that a closure of it sets to `true` (through a by-reference capture) on the Some/Err edge of a
+    call to `callee_suffix`: the structural identity of an `invalid input seen` flag, independent of its name.
+    Also accepts the flag being set in `parent` itself. Returns a set of parent locals."""
+    out = set()
+    def scan(body, resolve):
+        for bi, t in body.calls():
+            if not callee_of(t).endswith(callee_suffix):
+                continue
+            dest = t.get("dest")
+            if not isinstance(dest, int):
+                continue
+            # edges of the discriminant switch on the result other than the `nothing wrong` one (variant 0 = None / Ok)
+            starts = []
+            for sb in body.reachable():
+                tt = body.blocks[sb]["t"]
+                if tt["k"] != "switch":
+                    continue
+                l = op_local(tt["op"])
+                d = body.single_def(l) if l is not None else None
+                if d and d[2] == "assign" and d[3]["k"] == "discr" and pl_local(d[3]["pl"]) == dest:
+                    starts += [tg for v, tg in tt["ts"] if int(v) != 0]
+                    if any(int(v) == 0 for v, tg in tt["ts"]):
+                        starts.append(tt["else"])
+            if not starts:
+                continue
+            region = body.reach_from(starts)
+            for rb in region:
+                for s2 in body.blocks[rb]["s"]:
+                    rv = s2.get("rv")
+                    if not (rv and rv["k"] == "use" and op_const(rv["a"]) in (1, "1", True)):
+                        continue
+                    if rv["a"].get("ty") != "bool":
+                        continue
+                    x = resolve(body, s2["lhs"])
+                    if x is not None:
+                        out.add(x)
+    def res_parent(body, lhs):
+        return lhs if isinstance(lhs, int) else None
+    scan(parent, res_parent)
+    for cp in F.closures_of(parent.path):
+        cb = F.body(cp)
+        # upvar index -> parent local, from the closure aggregate in the parent
+        upmap = {}
+        for bi, si, s2 in parent.stmts():
+            rv = s2.get("rv")
+            if rv and rv["k"] == "agg" and rv.get("ak") == "closure" and rv.get("clo") == cp:
+                for i, o in enumerate(rv["ops"]):
+                    l = op_local(o)
+                    d = parent.single_def(l) if l is not None else None
+                    if d and d[2] == "assign" and d[3]["k"] in ("ref", "raw") and isinstance(d[3]["pl"], int):
+                        upmap[i] = d[3]["pl"]
+        def res_clo(body, lhs):
+            if isinstance(lhs, int) or lhs["p"] != ["*"]:
+                return None
+            ds = [x for x in body.defs().get(lhs["l"], []) if x[2] == "assign"]
+            d = ds[0] if len(ds) == 1 else None
+            if not (d and d[3]["k"] == "use"):
+                return None
+            pl = op_place(d[3]["a"])
+            if isinstance(pl, dict) and pl["l"] == 1 and len(pl["p"]) == 2 and pl["p"][0] == "*" and pl["p"][1].startswith("u|"):
+                return upmap.get(int(pl["p"][1].rsplit("|", 1)[1]))
+            return None
+        scan(cb, res_clo)
+    return out
